@@ -1,6 +1,8 @@
 package props
 
 import (
+	"sort"
+
 	"golang.org/x/tools/go/ssa"
 
 	"rqverif/checker/internal/an"
@@ -25,10 +27,22 @@ func c16c(c *core.Ctx) {
 					deferred[g] = true
 				}
 			}
+			// `defer s.bookkeeping(l, startT)`: a deferred private method of the package
+			if g := d.Call.StaticCallee(); g != nil && len(g.Blocks) > 0 && g.Pkg == fn.Pkg {
+				deferred[g] = true
+			}
 		}
 	})
+	hosts := an.WithClosures(fn)
+	for g := range deferred {
+		if g.Parent() == nil {
+			hosts = append(hosts, g)
+			c.Touch(g)
+		}
+	}
+	sort.Slice(hosts, func(i, j int) bool { return hosts[i].String() < hosts[j].String() })
 	nUpd, nApp := 0, 0
-	for _, f := range an.WithClosures(fn) {
+	for _, f := range hosts {
 		for _, call := range an.CallsTo(f, false, "internal/rsync.AtomicTime.Store") {
 			args := call.Common().Args
 			if len(args) != 2 {
